@@ -190,3 +190,58 @@ Proof.
   apply or_ranges_exact; assumption.
 Qed.
 End OneTuple.
+
+(* ---- the fast path of a lone IN filter ---- *)
+Lemma zinsert_in z x l : In z (zinsert x l) <-> z = x \/ In z l.
+Proof.
+  induction l as [|y l IH]; cbn; [intuition congruence|]. destruct (Z.ltb x y); cbn; [intuition congruence|].
+  destruct (Z.eqb_spec x y) as [->|N]; cbn; [intuition congruence|]. rewrite IH. intuition congruence.
+Qed.
+Lemma zsort_in z l : In z (zsort_dedupe l) <-> In z l.
+Proof. induction l as [|x l IH]; cbn; [tauto|]. rewrite zinsert_in, IH. intuition congruence. Qed.
+Lemma existsb_same_elements {A} (f : A -> bool) l l' : (forall z, In z l <-> In z l') -> existsb f l = existsb f l'.
+Proof.
+  intros H. destruct (existsb f l) eqn:E.
+  - apply existsb_exists in E. destruct E as [z [I F]]. symmetry. apply existsb_exists. exists z. split; [apply H; exact I|exact F].
+  - destruct (existsb f l') eqn:E'; [|reflexivity]. apply existsb_exists in E'. destruct E' as [z [I F]].
+    rewrite <- E. apply existsb_exists. exists z. split; [apply H; exact I|exact F].
+Qed.
+Definition lit_keys (l : lit) : list Z :=
+  if lit_integral l then match conv (lit_floor l) with (z, InRange) => [z] | _ => [] end else [].
+Lemma potential_eq_keys l v : lookup_has (potential (OEq l)) v = existsb (fun z => contains (closed_rce z z) v) (lit_keys l).
+Proof.
+  unfold potential, lit_keys. destruct (lit_integral l); cbn [negb]; [|reflexivity].
+  destruct (conv (lit_floor l)) as [z r]. destruct r; reflexivity.
+Qed.
+Lemma in_fast_keys_exact ls v : in_i32 v ->
+  existsb (fun z => contains (closed_rce z z) v) (zsort_dedupe (in_fast_keys ls)) = existsb (fun l => op_true (OEq l) v) ls.
+Proof.
+  intros R. rewrite (existsb_same_elements _ _ (in_fast_keys ls)) by (intros z; apply zsort_in).
+  unfold in_fast_keys. rewrite existsb_flat_map. apply existsb_ext'. intros l.
+  fold (lit_keys l). rewrite <- potential_eq_keys. apply potential_exact. exact R.
+Qed.
+Theorem in_fast_exact ls rs v : in_i32 v -> in_fast ls = Some rs ->
+  ucontains rs [v] = existsb (fun l => op_true (OEq l) v) ls.
+Proof.
+  intros R. unfold in_fast. rewrite <- (in_fast_keys_exact ls v R).
+  destruct (zsort_dedupe (in_fast_keys ls)) as [|k ks]; [discriminate|]. intros [= <-].
+  unfold ucontains. change ([closed_rce k k] :: map (fun z : Z => [closed_rce z z]) ks) with (map (fun z : Z => [closed_rce z z]) (k :: ks)).
+  rewrite existsb_map'. apply existsb_ext'. intros z. cbn [rcontains]. apply andb_true_r.
+Qed.
+(* nil comes back exactly when the list can match no column value at all — and nil, unlike the empty range, is not
+   read as "no rows" by the callers (finding: all rows through a primary key, a nil dereference through a secondary key) *)
+Theorem in_fast_nil_iff ls : in_fast ls = None <-> forall v, in_i32 v -> existsb (fun l => op_true (OEq l) v) ls = false.
+Proof.
+  unfold in_fast. split.
+  - destruct (zsort_dedupe (in_fast_keys ls)) eqn:E; [|discriminate]. intros _ v R.
+    rewrite <- (in_fast_keys_exact ls v R), E. reflexivity.
+  - intros H. destruct (zsort_dedupe (in_fast_keys ls)) as [|k ks] eqn:E; [reflexivity|exfalso].
+    assert (Ik : In k (in_fast_keys ls)) by (apply zsort_in; rewrite E; left; reflexivity).
+    assert (R : in_i32 (Some k)).
+    { unfold in_fast_keys in Ik. apply in_flat_map in Ik. destruct Ik as [l [_ Il]].
+      destruct (lit_integral l); [|destruct Il]. unfold conv in Il.
+      destruct (Z.gtb_spec (lit_floor l) i32max); [destruct Il|]. destruct (Z.ltb_spec (lit_floor l) i32min); [destruct Il|].
+      destruct Il as [<-|[]]. cbn. lia. }
+    specialize (H (Some k) R). rewrite <- (in_fast_keys_exact ls (Some k) R), E in H. cbn in H.
+    unfold contains, closed_rce in H. cbn in H. rewrite Z.leb_refl, Z.ltb_irrefl in H. discriminate.
+Qed.
